@@ -36,6 +36,8 @@ TECH = {
  "R32": "dominance of an index lookup over every opening of a segment's log file",
  "R33": "def-use classification of every value stored into Message.Time on the publish path",
  "R34": "def-use classification of the directory argument at every Segment constructor call site",
+ "R37": "def-use and dominance over the finder loops: cursor phi of Consume, origin of every key inserted into the result set, dominance of each selection by the bound comparison on the same message, key/value arguments of the key tree",
+ "R38": "def-use from each finder call to the delete sink (same value, unmodified, on the success edge) and origin of the set the multi-segment drivers pass to Log.Delete",
  "R36": "CFG reachability from the success edge of the per-segment time lookup to the loop header, or dominance of every success return of the lookup by a strict comparison with the first timestamp",
  "R35": "error-atom flow: every outcome sentinel of a pure per-segment lookup is classified inside the loop over the segments",
 }
@@ -44,17 +46,19 @@ TEXT = {
  "C01": "Decides that every record a rewrite/recover/migrate loop reads is written unchanged or (delete only) reported, never dropped, duplicated or altered, that its index item is derived from the same record at the right position, that record bytes are laid out and read back per the documented layout, that segment names sort numerically and temp files are never adopted, and that a replacement segment is in place before the original is removed. Necessary structural conditions of content fidelity on every path; not an equality-with-reference proof.",
  "C02": "Decides that the encoded offset is always base+i with base loaded from the head's atomic next offset under the writer lock, that the atomic is only stored from last.Offset+1, that an emptied head's successor exists before the head is removed, and that a new segment is only ever named 0 or after the live next offset. Necessary for dense, never-reused offsets; the value-level histories are not decided.",
  "C03": "Decides that the identity-compared sentinels implementing the segment hand-off of Consume (after-end -> next segment, empty/exhausted head -> caught up) arrive unwrapped and are still produced. The searches and cursor arithmetic are value-level and not decided.",
- "C04": "Decides the error taxonomy: every sentinel classifies under ErrNotFound/ErrInvalidOffset as documented, nothing internal escapes from any Log method, and the after-end -> not-found mapping still sees its sentinel. 'iff live' and agreement with Consume are value-level and not decided.",
+ "C04": "Decides the error taxonomy: every sentinel classifies under ErrNotFound/ErrInvalidOffset as documented, nothing internal escapes from any Log method, and the after-end -> not-found mapping still sees its sentinel. Log.Get asks the picked segment for exactly the requested offset and classifies that segment's empty outcome before returning. 'iff live' and agreement with Consume are value-level and not decided.",
  "C05": "Decides the order of file-system steps in Override, Migrate, the rebase and empty-head paths, stale deterministic temp files, recover-loop exits, torn-header classification and fsync-before-rename. A necessary part of crash consistency; the protocol as a whole over all crash points is not decided.",
  "C06": "Decides, for every path of Log.Sync / Publish under AutoSync / Close, the roll-over, and the rewrite, recover and migrate functions, that the log (and where nothing re-derives it, the index) file is fsynced after its last write before the call acknowledges or the file is renamed in. A necessary structural condition that no test can observe; not a proof of recovery.",
  "C07": "Decides that decoders reject before returning (CRC, trailer, bounded sizes), classify a torn header and all their failure sentinels as corruption, that the Recover/Check/reindex scans derive each index item from the record just read and leave their loops only at EOF/corruption/error, and that a missing index is tolerated. 'Longest valid prefix' and byte-for-byte no-op are not decided.",
  "C08": "Decides race-freedom structurally (a common exclusively-held lock for every write/access pair of every shared mutable field, including the writers' file state), an acyclic lock order without re-acquisition, the unload refcount protocol, re-validation of a head rewrite snapshot, reader lifetime versus close, and bounded head scans. Linearizability of results is not decided.",
  "C09": "Decides that a hash hit is returned/collected only after a byte comparison with the caller's own key, that key tree and item list grow together, that first-hit loops run newest-first, that the hash is FNV-1a of the key on every path, and that the segment walk's sentinel and the ErrNoIndex guard are intact. Ascending-order facts and cursor arithmetic are not decided.",
- "C10": "Decides that the before-start/after-end sentinels driving the time walk arrive unwrapped, are alive and never escape, and the ErrNoIndex guard. Which message is found is value-level and not decided (very narrow claim).",
+ "C10": "Decides that the sentinels driving the time walk arrive unwrapped, are alive and never escape, that every outcome of the pure per-segment lookup (before start, after end, empty) is classified inside the loop over the segments, that a segment's exact first-item match hands off to the older segment, that no branch depends on the wall clock, that the index timestamp is max(time, previous) on every path and message times are stored as given, and the ErrNoIndex guard. Which message the searches find is value-level and not decided.",
  "C11": "Decides that every consumer of an index file tolerates its absence or runs where it is ensured, that log replacement removes/rewrites the index in a safe order from the new file's positions, that writer and reader of the item layouts agree, and that whole-index writes are fsynced. Item-by-item equality over histories is not decided.",
  "C12": "Decides that in the rewrite loop deleted and kept partition the records read (deleted only under membership in the caller's set), that relative offsets are rejected and the empty set is a no-op before any lock, that a head snapshot is re-validated before it replaces the head, and that errSegmentChanged still reaches its comparison. Size arithmetic and the multi-pass driver are not decided.",
  "C13": "Decides encoder = decoder = documented layout for V1/V2 records, file headers and the four index item layouts, CRC table and coverage, Size(), key hash, and exhaustive version switches. Stat over histories is not decided.",
  "C14": "Decides bounded allocation, CRC and trailer dominance over every success return of the decoders, torn-header classification, corruption classification of all decoder failures, and that a possibly-empty read result is never indexed. That other segments keep answering is not decided.",
+ "C15": "Decides the shape of the trim finders and wrappers: gap-free scan from OffsetOldest, only messages of the consumed batch are selected, the offset and age finders select a message only where the bound comparison on that same message dominates, wrappers hand the finder's set unchanged to the delete on the success edge, drivers only ask for a shrinking clone of the given set. Necessary for 'a prefix and nothing else' and 'no message outside the bound is touched'; the count/size arithmetic and that the bound is reached are value-level and not decided.",
+ "C16": "Decides the shape of the compaction finders: gap-free scan, key tree keyed by the message's own Key bytes storing its own Offset, only messages tested not after the cut-off enter it, FindUpdates selects only the replaced holder the tree returned, FindDeletes selects only value-less first-seen messages, wrappers/drivers as C15. Necessary for 'only messages with a later message of the same key / only value-less oldest messages are removed'; that the latest value of every key is unchanged is value-level and not decided.",
  "C17": "Decides that each version has an agreeing encoder/decoder, version switches are exhaustive, the migrate loop copies every record and indexes destination positions, and migration runs in a safe order with the temp file fsynced. Which version a segment ends up in is not decided.",
  "C18": "Decides publish-then-set and wait-before-consume in both blocking wrappers, the notifier's channel-token discipline, the probe under the token, and the broadcast (monotone store, close received channel, install a fresh one). That a waiter stays parked and what a woken call returns are not decided.",
  "C19": "Decides lock mode per Readonly with release on failed Open and in Close, that Publish/Delete reject with ErrReadonly before any effect, and that no log-file mutator is reachable in read-only mode or from any query method. flock(2) semantics and answer equivalence are not decided.",
@@ -77,10 +81,7 @@ for pid, rules in claimed().items():
     CLAIMED[pid] = (", ".join(rules), tech, TEXT[pid], NOTE)
 
 NOT_YET = "no sound structural rule built yet for this property in this revision of the checker (see DESIGN.md section 5); will be claimed when its rules land"
-NA = {
- "C15": "the bound each trim helper enforces (count, size, age, offset) is arithmetic over run-time values returned by Stat/Consume; no clause of the statement is a fact about code shape that a sound static rule in reach decides",
- "C16": "'latest value per key is unchanged' quantifies over key/offset/time values; the two finder loops are pure value-level algorithms with no structural necessary condition to check soundly",
-}
+NA = {}
 
 def main():
     props = [json.loads(l)["id"] for l in open("/verif/properties.jsonl")]
